@@ -276,6 +276,41 @@ func runC01(cx *Ctx, r *Report) {
 			}
 		}
 	}
+	// one-sided operations are priced against ONE of the pool's two reserves: the token of the
+	// message must be the pool's counterparty denom or the standard denom on every path to the
+	// mint / payout (a third denom that merely sits on the escrow account - a donation - would be
+	// priced against a tiny "reserve" and mint an enormous share)
+	{
+		nU := 0
+		for _, e := range entries {
+			if e.Name != "AddUnilateralLiquidity" && e.Name != "RemoveUnilateralLiquidity" {
+				continue
+			}
+			ee := e
+			w := newWalker(cx)
+			w.Walk(ee.Fn, func(fr *Frame) {
+				for _, ev := range w.EventsOf(fr) {
+					if ev.Kind != "bank.MintCoins" && ev.Kind != "bank.BurnCoins" {
+						continue
+					}
+					nU++
+					fld := "msg.ExactToken.Denom"
+					if e.Name == "RemoveUnilateralLiquidity" {
+						fld = "msg.MinToken.Denom"
+					}
+					why, ok := w.pathGuardAny(fr, ev.Site,
+						guardAlt{Value: false, Subs: []string{"(" + fld + " != msg.CounterpartyDenom)"}},
+						guardAlt{Value: true, Subs: []string{"(" + fld + " == msg.CounterpartyDenom)"}},
+						guardAlt{Value: false, Subs: []string{"(" + fld + " != ", "GetStandardDenom("}},
+						guardAlt{Value: true, Subs: []string{"(" + fld + " == ", "GetStandardDenom("}})
+					r.check(ok, "one-sided-denom", e.Name+"|"+ev.Kind, cx.P.Pos(ev.Site.Pos()), "the message's token is the pool's counterparty or standard denom: "+why, e.Name+": "+ev.Kind+" is reachable with a token denom that is neither the pool's counterparty denom nor the standard denom (no such test decided on every path): the share would be priced against whatever amount of that denom sits on the escrow account")
+				}
+			})
+		}
+		if nU < 2 {
+			r.toolErr("only %d one-sided mint/burn events found (≥2 confirmed)", nU)
+		}
+	}
 	r.requireCount("price-formula", 6)
 	r.requireCount("liquidity-formula", 6)
 	r.requireCount("reserve-guard", 7)
